@@ -89,7 +89,7 @@ def check(run):
     prof = rc.profile(w=dict(expr=5, callc=4, block=2, inc=3, text=3, mark=5, ret=1, **{"try": 1, "for": 2, "with": 2, "while": 1, "if": 1}),
                       nincs=(0, 2), depth=3, p_fm=0.8, p_dm=0.8, p_amark=0.5, eh=0.0, fe=0.0, p_bad_args=0.03)
     g = rc.Gen(run.rng, prof)
-    n_base = 100 if not thorough else 600
+    n_base = 100 if not thorough else 900
     import itertools
     progs = []
     for _ in range(n_base):
@@ -99,7 +99,7 @@ def check(run):
     prof2 = rc.profile(w=dict(expr=5, callc=4, block=2, inc=3, **{"try": 4, "for": 2, "with": 2}), nincs=(1, 2), depth=3,
                        eh=0.25, fe=0.1, p_fm=0.8, p_dm=0.8, p_amark=0.5)
     g2 = rc.Gen(run.rng, prof2)
-    progs += [g2.gen_prog() for _ in range(180 if not thorough else 1200)]
+    progs += [g2.gen_prog() for _ in range(180 if not thorough else 1800)]
     run.extra["programs"] = len(progs)
     for i in range(0, len(progs), 300):
         rc.check_batch(run, progs[i:i + 300], maxraise, "raise-%d" % (i // 300), coverage=True)
